@@ -99,9 +99,8 @@ func extras() *cdrive.FlatFamily {
 			"i = args.x", "while.outer i < 6 {", "i ~mod+= 1", "j = i", "while.inner true {", "j ~mod+= 1", "if j == 4 {", jm, "}", "this.q ~mod+= 1", "break.inner", "}.inner",
 			"this.f ~mod+= j", "}.outer", "this.q ~mod+= i")
 	}
-	// An iterate body that assigns to its own iterate variable (a terminating
-	// one; see cfg.Keep in main.go and known_findings.json).
-	f.Add("pub struct foo?(\nr : base.u8,\na : array[8] base.u8,\n)\n\npub func foo.m!(x: base.u32[..= 3]) {\nvar s : slice base.u8\nvar v : base.u8\n"+
-		"iterate (s = this.a[..])(length: 4, advance: 2, unroll: 1) {\ns = s[1 ..]\nv ~mod+= 1\n}\nthis.r = v\n}\n", map[string]string{"kind": "iterate variable assigned in the body"})
+	// The value of the 8-byte copy_from_slice! peephole (known_findings.json).
+	f.Add(prog([]string{"q : base.u64", "a : array[8] base.u8", "c : array[8] base.u8"}, "x: base.u8", nil,
+		"this.c[2] = args.x", "this.q = this.a[.. 8].copy_from_slice!(s: this.c[.. 8])"), map[string]string{"kind": "copy8 peephole result used"})
 	return f
 }
